@@ -269,10 +269,13 @@ PROPS = {
                    'the index table MatchTail.__init__ builds for it, the dispatcher HeadersEaeter.eat, the section emission with absolute '
                    'offsets of iter_markup (relative to the eaters), and the feeding obligation of _body_read. The two searching eaters '
                    '_eat_start_boundary (relative to _eat_data) and _eat_headers (relative to a specification of its regular expression that '
-                   'is validated against the real pattern by enumeration on a bounded scope) are under contract as well; of the block-wise '
-                   'delimiter search _eat_data the SOUNDNESS half is proved (a reported position is an occurrence of the delimiter in the '
-                   'stream, the expectation carried to the next chunk is true of the stream, termination); its completeness (no delimiter '
-                   'overlooked, first occurrence) is bounded only, so the level stays `other`.',
+                   'is validated against the real pattern by enumeration on a bounded scope) are under contract as well. The block-wise '
+                   'delimiter search _eat_data is proved in stream terms, soundness AND completeness: with prev = the section bytes of '
+                   'earlier chunks, a reported position is the FIRST occurrence of the delimiter in prev ++ chunk, None means there is none, '
+                   'and the expectation carried to the next chunk is exactly the (unique) proper head of the delimiter the stream ends with - '
+                   'i.e. the result does not depend on where the chunk boundaries fall. What is NOT mechanised is the composition of these '
+                   'per-function contracts (and the stream-level reading of _eat_headers for well-formed header blocks) into the statement, '
+                   'so the level stays `other` and the statement itself is decided by the bounded check.',
         level_note='Bounds are stated in coverage.bounded.bound.',
     ),
     'C07': dict(
